@@ -436,6 +436,8 @@ func checkC04(c *Ctx) {
 	c.ruleSweepDrains("C04-R7")
 	c.ruleAppendAliasing("C04-R9", "wasp/expiration")
 	c.ruleDeadlineRounding("C04-R10")
+	c.rulePoppedBucketDrained("C04-R11")
+	c.ruleItemKeepsExactDeadline("C04-R12")
 
 	// R8: slices that are binary-searched stay sorted
 	ru8 := c.R.Rule("C04-R8", "a slice field that is binary-searched with sort.Search is only modified in order-preserving ways: append followed by a sort, or deletion by append(s[:i], s[i+1:]...); a whole element is never overwritten in place (swap-with-last removal breaks the order the search relies on)", "E11 shape rule on writes to sort.Search'ed members", 1)
@@ -819,4 +821,148 @@ func (c *Ctx) ruleDeadlineRounding(id string) {
 		key := fmt.Sprintf("deadline rounding #%d in %s", i, c.fname(u.fn))
 		ru.Check(u.method == ref.method && u.unit == ref.unit, key, c.whereI(u.at), u.method+"("+u.unit+")", fmt.Sprintf("this site rounds deadlines with %s(%s) while %s uses %s(%s): entries filed by one are not found by the other", u.method, u.unit, c.fname(ref.fn), ref.method, ref.unit))
 	}
+}
+
+// rulePoppedBucketDrained implements C04-R11: a bucket taken off the heap hands over all its entries.
+func (c *Ctx) rulePoppedBucketDrained(id string) {
+	ru := c.R.Rule(id, "a bucket popped from the heap is drained completely: the loop that copies its entries into the sweep's result is left only through its normal end (the bucket has left heap and index, so an entry it still holds is never expired, retransmitted or released)", "E2 loop exits after heap.Pop", 1)
+	pop := c.fo(ru, "container/heap", "Pop")
+	if pop == nil {
+		return
+	}
+	n := 0
+	for _, f := range c.P.ModFuncs() {
+		if f.Package() == nil || f.Package().Pkg.Path() != c.P.Rel("wasp/expiration") {
+			continue
+		}
+		loops := core.Loops(f)
+		for _, pc := range core.CallsTo(f, pop) {
+			c.R.Fn(c.fname(f))
+			// loops over data read out of the popped bucket
+			for _, l := range loops {
+				if !l.Blocks[pc.Instr.Block()] && !pc.Instr.Block().Dominates(l.Header) {
+					continue
+				}
+				overPopped := false
+				for b := range l.Blocks {
+					for _, in := range b.Instrs {
+						var x ssa.Value
+						switch y := in.(type) {
+						case *ssa.IndexAddr:
+							x = y.X
+						case *ssa.Index:
+							x = y.X
+						case *ssa.Range:
+							x = y.X
+						default:
+							continue
+						}
+						if depReaches(x, func(v ssa.Value) bool { return v == pc.Value() }) {
+							overPopped = true
+						}
+					}
+				}
+				if !overPopped || l.Blocks[pc.Instr.Block()] && l.Header.Dominates(pc.Instr.Block()) && innerOf(loops, l, pc.Instr.Block()) {
+					continue
+				}
+				n++
+				key := fmt.Sprintf("drain loop #%d after heap.Pop in %s", n, c.fname(f))
+				bad := ""
+				for b := range l.Blocks {
+					if _, isRet := b.Instrs[len(b.Instrs)-1].(*ssa.Return); isRet {
+						bad = "return inside the loop over the popped bucket's entries (" + c.P.Pos(lastPos(b)) + ")"
+					}
+					for _, sb := range b.Succs {
+						if !l.Blocks[sb] && b != l.Header {
+							bad = "the loop over the popped bucket's entries can be left early (at " + c.P.Pos(lastPos(b)) + "): the entries not yet copied are lost with the bucket"
+						}
+					}
+				}
+				ru.Check(bad == "", key, c.whereI(pc.Instr), "left only through its normal end", bad)
+			}
+		}
+	}
+	ru.Anchor(n > 0, "a loop over the entries of a bucket popped from the heap")
+}
+
+// innerOf: l is not the innermost loop around b (the outer sweep loop contains the pop itself).
+func innerOf(loops []*core.Loop, l *core.Loop, b *ssa.BasicBlock) bool {
+	in := core.InnermostLoop(loops, b)
+	return in == l
+}
+
+// ruleItemKeepsExactDeadline implements C04-R12.
+func (c *Ctx) ruleItemKeepsExactDeadline(id string) {
+	ru := c.R.Rule(id, "an entry filed in a bucket keeps its exact deadline: the time stored with the entry never comes from the rounding that computes the bucket key (the delete looks the entry up by its exact deadline; an entry stored under the rounded one is not found, its timer survives the acknowledgement and fires on the exchange that reuses the identifier)", "E3 provenance of the per-entry time field vs the rounding call", 1)
+	// entry structs: element types of slice fields of structs of the package
+	elem := map[*types.Named]bool{}
+	tp := c.P.TypesPkg("wasp/expiration")
+	if !ru.Anchor(tp != nil, "package wasp/expiration") {
+		return
+	}
+	for _, name := range tp.Scope().Names() {
+		tn, ok := tp.Scope().Lookup(name).(*types.TypeName)
+		if !ok {
+			continue
+		}
+		st, ok := tn.Type().Underlying().(*types.Struct)
+		if !ok {
+			continue
+		}
+		for i := 0; i < st.NumFields(); i++ {
+			if sl, ok := st.Field(i).Type().Underlying().(*types.Slice); ok {
+				if en, ok := derefT(sl.Elem()).(*types.Named); ok && en.Obj().Pkg() == tp {
+					if _, isStruct := en.Underlying().(*types.Struct); isStruct {
+						elem[en] = true
+					}
+				}
+			}
+		}
+	}
+	// a bucket is itself an element of the heap / the skip list: entries are the leaves (no slice of package structs inside)
+	for en := range elem {
+		st := en.Underlying().(*types.Struct)
+		for i := 0; i < st.NumFields(); i++ {
+			if sl, ok := st.Field(i).Type().Underlying().(*types.Slice); ok {
+				if inner, ok := derefT(sl.Elem()).(*types.Named); ok && inner.Obj().Pkg() == tp {
+					delete(elem, en)
+				}
+			}
+		}
+	}
+	n, bad := 0, ""
+	for _, f := range c.P.ModFuncs() {
+		if f.Package() == nil || f.Package().Pkg.Path() != c.P.Rel("wasp/expiration") {
+			continue
+		}
+		for _, b := range f.Blocks {
+			for _, in := range b.Instrs {
+				st, ok := in.(*ssa.Store)
+				if !ok {
+					continue
+				}
+				fa, ok := st.Addr.(*ssa.FieldAddr)
+				if !ok || !isNamed(st.Val.Type(), "time", "Time") {
+					continue
+				}
+				en, ok := derefT(fa.X.Type()).(*types.Named)
+				if !ok || !elem[en] {
+					continue
+				}
+				n++
+				c.R.Fn(c.fname(f))
+				if depReaches(st.Val, func(v ssa.Value) bool {
+					cv, ok := v.(*ssa.Call)
+					if !ok {
+						return false
+					}
+					cl := core.CallOf(cv)
+					return cl.Obj != nil && cl.Obj.Pkg() != nil && cl.Obj.Pkg().Path() == "time" && (cl.Obj.Name() == "Round" || cl.Obj.Name() == "Truncate")
+				}) {
+					bad = "the deadline stored with the entry at " + c.whereI(st) + " is the rounded bucket key, not the entry's own deadline"
+				}
+			}
+		}
+	}
+	ru.Check(bad == "" && n > 0, "deadline stored with each entry in wasp/expiration", "-", fmt.Sprintf("%d store(s) of an entry's time, none derived from the rounding", n), bad+map[bool]string{true: "", false: "no entry with a time field is stored"}[n > 0 || bad != ""])
 }
